@@ -1,4 +1,5 @@
 pub mod checks;
 pub mod dynsampler;
+pub mod graphs;
 pub mod inst;
 pub mod tr;
